@@ -358,7 +358,11 @@ func (e *specEnv) call(x *ast.CallExpr) specVal {
 			return specVal{app("str.len", v.t), tInt}
 		case *types.Map:
 			_, _, ln := tr.mapComps(u)
-			return specVal{Ite(Eq(v.t, "0"), "0", tr.read(tr.heapOf(e.st, ln), v.t)), tInt}
+			l := Ite(Eq(v.t, "0"), "0", tr.read(tr.heapOf(e.st, ln), v.t))
+			if !tr.openTerm(l) {
+				tr.cardLemma(e.st, u, v.t, l)
+			}
+			return specVal{l, tInt}
 		}
 		e.errf("len of %s", typeStr(v.typ))
 	case "cap":
@@ -526,6 +530,14 @@ func (e *specEnv) call(x *ast.CallExpr) specVal {
 				return specVal{Eq(l, "0"), tBool}
 			}
 		}
+	case "min", "max":
+		if need(2) {
+			a, b := arg(0), arg(1)
+			if name == "min" {
+				return specVal{Ite(app("<=", a.t, b.t), a.t, b.t), tInt}
+			}
+			return specVal{Ite(app(">=", a.t, b.t), a.t, b.t), tInt}
+		}
 	case "sametype":
 		if need(2) {
 			return specVal{Eq(app("dynTypeId", e.toVal(arg(0))), app("dynTypeId", e.toVal(arg(1)))), tBool}
@@ -555,6 +567,18 @@ func (e *specEnv) call(x *ast.CallExpr) specVal {
 			}
 			e.errf("visited(): loop is not a map range")
 		}
+	case "visitedCount":
+		if e.li == nil || e.li.visCountHead == "" {
+			e.errf("visitedCount() outside a map range loop invariant")
+			break
+		}
+		switch e.visMode {
+		case "init":
+			return specVal{"0", tInt}
+		case "back":
+			return specVal{app("+", e.li.visCountHead, "1"), tInt}
+		}
+		return specVal{e.li.visCountHead, tInt}
 	case "ghost":
 		if need(1) {
 			id, ok := x.Args[0].(*ast.Ident)
@@ -728,11 +752,27 @@ func (a *Act) lookupLocalVar(e *specEnv, name string) (specVal, bool) {
 			}
 		}
 	}
-	// address-taken locals
-	for v, lv := range a.lvs {
-		if al, ok := v.(*ssa.Alloc); ok && al.Comment == name {
-			return specVal{a.load(e.st, lv), lv.typ}, true
+	// address-taken locals: the declaration that dominates the point of interest
+	var bestAl *ssa.Alloc
+	for v := range a.lvs {
+		al, ok := v.(*ssa.Alloc)
+		if !ok || al.Comment != name {
+			continue
 		}
+		at := a.curBlock
+		if e.li != nil {
+			at = e.li.header
+		}
+		if at != nil && !(al.Block() == at || al.Block().Dominates(at)) {
+			continue
+		}
+		if bestAl == nil || bestAl.Block().Dominates(al.Block()) && bestAl != al {
+			bestAl = al
+		}
+	}
+	if bestAl != nil {
+		lv := a.lvs[bestAl]
+		return specVal{a.load(e.st, lv), lv.typ}, true
 	}
 	// debug references: last definition of the name that is already translated and
 	// dominates the point of interest
@@ -753,14 +793,20 @@ func (a *Act) lookupLocalVar(e *specEnv, name string) (specVal, bool) {
 				}
 			}
 			if e.li != nil {
-				if _, isPhi := dr.X.(*ssa.Phi); isPhi {
+				if phi, isPhi := dr.X.(*ssa.Phi); isPhi && phi.Block() == e.li.header {
 					continue
 				}
 				if ins, ok := dr.X.(ssa.Instruction); ok && !(ins.Block() != e.li.header && ins.Block().Dominates(e.li.header)) {
 					continue
 				}
+			} else if a.curBlock != nil {
+				if ins, ok := dr.X.(ssa.Instruction); ok && !(ins.Block() == a.curBlock || ins.Block().Dominates(a.curBlock)) {
+					continue
+				}
 			}
-			best = dr.X
+			if best == nil || laterDef(dr.X, best) {
+				best = dr.X
+			}
 		}
 	}
 	if best != nil {
@@ -1199,4 +1245,25 @@ func (e *specEnv) constVal(c *types.Const) specVal {
 	}
 	e.errf("unsupported constant %s", c.Name())
 	return specVal{"0", tInt}
+}
+
+// laterDef: definition x comes after y on every path (y's block dominates x's, or same block later).
+func laterDef(x, y ssa.Value) bool {
+	xi, ok1 := x.(ssa.Instruction)
+	yi, ok2 := y.(ssa.Instruction)
+	if !ok1 {
+		return false // parameters, constants: earliest
+	}
+	if !ok2 {
+		return true
+	}
+	if xi.Block() == yi.Block() {
+		_, xPhi := x.(*ssa.Phi)
+		_, yPhi := y.(*ssa.Phi)
+		if xPhi != yPhi {
+			return yPhi
+		}
+		return instrIndex(xi) > instrIndex(yi)
+	}
+	return yi.Block().Dominates(xi.Block())
 }
